@@ -83,6 +83,7 @@ type VC struct {
 	allocBase *Term
 	assumedContracts map[string]bool
 	params []types.Object
+	origins map[int]originRec
 	inlineMode bool
 	retCount int
 }
@@ -503,7 +504,7 @@ func (vc *VC) modSet(n ast.Node) *modInfo {
 			mi.heapWrite = true
 		}
 	}
-	ast.Inspect(n, func(x ast.Node) bool {
+	inspectNonExiting(n, func(x ast.Node) bool {
 		switch s := x.(type) {
 		case *ast.FuncLit:
 			mi.heapWrite = true
@@ -541,4 +542,33 @@ func sortedObjs(m map[types.Object]bool) []types.Object {
 	}
 	sort.Slice(l, func(i, j int) bool { return l[i].Pos() < l[j].Pos() })
 	return l
+}
+
+// inspectNonExiting walks a loop body but skips statements that cannot reach the back edge:
+// return statements and blocks whose last statement is a return (their effects never influence a later iteration).
+func inspectNonExiting(n ast.Node, f func(ast.Node) bool) {
+	ast.Inspect(n, func(x ast.Node) bool {
+		switch s := x.(type) {
+		case *ast.ReturnStmt:
+			return false
+		case *ast.BlockStmt:
+			if len(s.List) > 0 {
+				if _, ok := s.List[len(s.List)-1].(*ast.ReturnStmt); ok && !containsBranch(s) {
+					return false
+				}
+			}
+		}
+		return f(x)
+	})
+}
+
+func containsBranch(n ast.Node) bool {
+	found := false
+	ast.Inspect(n, func(x ast.Node) bool {
+		if b, ok := x.(*ast.BranchStmt); ok && (b.Tok == token.CONTINUE || b.Tok == token.GOTO || b.Tok == token.BREAK) {
+			found = true
+		}
+		return !found
+	})
+	return found
 }
